@@ -6,6 +6,16 @@ ids = [json.loads(l)["id"] for l in open(os.path.join(HERE, "properties.jsonl"))
 
 # id -> (category, technique, level text, level note, design ref)
 CLAIMED = {
+ "C06": ("fault_enumeration",
+         "stateful property-based testing with save / drop / load at generated crash points (API-call granularity), twins loaded from storage copies, and a tee storage provider comparing the two shipped providers answer by answer",
+         "Histories over in-memory, SQLite and tee storage with retention 1-5: the state loaded after a write equals the state at the write (canonical equality incl. pending commit, proposals, pending updates), also right after building a commit; a fresh instance loaded at any later point equals the last written state; a twin loaded from a storage copy stays equal to the member after every delivery; both storage providers return identical answers and histories.",
+         "Crash points are between API calls; atomicity inside one SQLite transaction is trusted. The key-package reference kept by a written-but-not-reloaded joiner is not compared (unobservable).",
+         "DESIGN.md §4 C06"),
+ "C15": ("fault_enumeration",
+         "fault injection by enumeration: for every operation of generated scripts, every storage call (group state, key package, PSK stores) is made to fail once in turn (pairs in the thorough tier); oracle = error + canonical state equality + retry success + equality with a fault-free twin",
+         "Every individual storage call inside join, commit build, apply pending commit, process commit / late application message, write_to_storage and load_group fails once: the operation must return an error, leave the member canonically unchanged (clone first, then the member), succeed when repeated, end in the state of a fault-free twin, store a loadable state and keep the prior epochs; peers accept the victim's commits.",
+         "Transient single (or paired) failures of whole storage calls; torn writes inside a provider are out of scope. One listed known finding (consumed handshake key, shared root cause with C04).",
+         "DESIGN.md §4 C15"),
  "C11": ("exploration",
          "model-based stateful property testing: generated op sequences over commit / detached commit / clear / resolve-epoch (winner chosen by the delivery service) / stale deliveries, checked against an explicit pending-commit state machine and canonical state equality",
          "An explicit model of who holds which pending or detached commit predicts the outcome of every call for racing members; building a commit may change only the pending-commit slot (+ consumed handshake key), apply-vs-echo must give equal states, losers drop their pending commit, old or stale commits are rejected without change, and all members agree after each resolved epoch.",
